@@ -12,8 +12,11 @@ covering query of both systems is compared with the spec state; QueryAll steps r
 liaison flush window.
 
 Use:  run(c) from checks/c17.py, or  python3 checks/c17b.py --tier quick|thorough [--replay file]
+(a stand-alone run keeps its evidence / replay files under .build/c17b/ and leaves evidence/C17.json alone).
+Development overrides: VERIF_C17B_BIN = harness binary to use instead of building `eng` (e.g. one built with a candidate
+repair mapped in through a private overlay), VERIF_C17B_SIMS = number of simulated behaviours per family.
 """
-import json, os, sys
+import json, os, shutil, sys, tempfile
 sys.path.insert(0, '/verif/tools'); sys.path.insert(0, '/verif/checks')
 from vf import core
 import engcommon as ec
@@ -64,10 +67,10 @@ def families(c):
             dict(indexed, name='cluster-2n2s0r-two-days-indexed', engine='measure-cluster', sims=n or (15 if c.quick else 150))]
     if not c.quick:
         # other node / shard / replica counts (one cluster per harness process)
-        fams.append(dict(plain, name='cluster-3n4s1r-two-days', engine='measure-cluster-3n4s1r', sims=120))
-        fams.append(dict(indexed, name='cluster-3n4s1r-two-days-indexed', engine='measure-cluster-3n4s1r', sims=60))
-        fams.append(dict(plain, name='cluster-1n1s0r-two-days', engine='measure-cluster-1n1s0r', sims=60))
-        fams.append(dict(plain, name='cluster-3n2s0r-two-days', engine='measure-cluster-3n2s0r', sims=60))
+        fams.append(dict(plain, name='cluster-3n4s1r-two-days', engine='measure-cluster-3n4s1r', sims=n or 120))
+        fams.append(dict(indexed, name='cluster-3n4s1r-two-days-indexed', engine='measure-cluster-3n4s1r', sims=n or 60))
+        fams.append(dict(plain, name='cluster-1n1s0r-two-days', engine='measure-cluster-1n1s0r', sims=n or 60))
+        fams.append(dict(plain, name='cluster-3n2s0r-two-days', engine='measure-cluster-3n2s0r', sims=n or 60))
     return fams
 
 
@@ -100,9 +103,26 @@ def selftest(c, binp, fam):
     return out
 
 
+def remove_scratch():
+    """the cluster's data directories (vf-c17b-<pid>-*): the harness leaves through os.Exit and cannot remove its own"""
+    tmp = tempfile.gettempdir()
+    for d in os.listdir(tmp):
+        if d.startswith('vf-c17b-'):
+            pid = d.split('-')[2]
+            if pid.isdigit() and not os.path.exists('/proc/' + pid):
+                shutil.rmtree(os.path.join(tmp, d), ignore_errors=True)
+
+
 def run(c, binp=None):
     binp = binp or c.gobuild('eng')
     fams = families(c)
+    try:
+        return _run(c, binp, fams)
+    finally:
+        remove_scratch()
+
+
+def _run(c, binp, fams):
     rejected = selftest(c, binp, fams[0])
     tot, stats, samples, nontriv, cover = ec.run_families(c, fams, binp, nontrivial, procs=2)
     waits = max(1, stats.get('delivery_waits', 0))
